@@ -236,6 +236,69 @@ def splice_fn(text, item, key):
     return out
 
 
+def fragment_span(text, frag, key):
+    """character span (start, end) of the k-th `match` expression / closure (`|params| {body}`) of the text, located exactly as extract_fragment does"""
+    toks = lex(text)
+    kind, index = frag['kind'], frag['index']
+    if kind == 'match':
+        hits = [j for j, t in enumerate(toks) if t[0] == 'id' and t[1] == 'match']
+        if index >= len(hits):
+            raise LostAnchor('%s: elide: match #%d not found (%d matches)' % (key, index, len(hits)))
+        j = hits[index]
+        k = j + 1
+        while not (toks[k][0] == 'p' and toks[k][1] == '{'):
+            if toks[k][0] == 'p' and toks[k][1] in ('(', '['):
+                k = match_close(toks, k)
+            k += 1
+        c = match_close(toks, k)
+        scrut = text[toks[j][3]:toks[k][2]].strip()
+        if frag.get('expect_scrutinee') is not None and norm(scrut) != norm(frag['expect_scrutinee']):
+            raise LostAnchor('%s: elide: match #%d scrutinee is %r, expected %r' % (key, index, scrut, frag['expect_scrutinee']))
+        return toks[j][2], toks[c][3], {'scrutinee': scrut}
+    if kind == 'closure':
+        hits = []
+        for j, t in enumerate(toks):
+            if t[0] == 'p' and t[1] == '|' and j > 0 and toks[j - 1][1] in ('(', ',', '=', 'move'):
+                hits.append(j)
+        openers, skip = [], -1
+        for j in hits:
+            if j <= skip:
+                continue
+            k = j + 1
+            while not (toks[k][0] == 'p' and toks[k][1] == '|'):
+                k += 1
+            skip = k
+            openers.append((j, k))
+        if index >= len(openers):
+            raise LostAnchor('%s: elide: closure #%d not found (%d closures)' % (key, index, len(openers)))
+        j, k = openers[index]
+        b = k + 1
+        if toks[b][1] == '->':
+            while b < len(toks) and toks[b][1] != '{':
+                b += 1
+        if b >= len(toks) or toks[b][1] != '{':
+            raise LostAnchor('%s: elide: closure #%d has no block body' % (key, index))
+        c = match_close(toks, b)
+        params = text[toks[j][3]:toks[k][2]].strip()
+        if frag.get('expect_params') is not None and norm(params) != norm(frag['expect_params']):
+            raise LostAnchor('%s: elide: closure #%d params are %r, expected %r' % (key, index, params, frag['expect_params']))
+        return toks[j][2], toks[c][3], {'params': params}
+    raise ValueError(kind)
+
+
+def elide_fragments(text, elides, key, log):
+    """R6b: the inverse of lifting - the k-th match expression / closure of the function (verified on its own as a lifted fragment by another
+    item or unit) is replaced by a call `to`; indices refer to the ORIGINAL text, replacements are applied back to front"""
+    spans = []
+    for el in elides:
+        s, e, info = fragment_span(text, el, key)
+        spans.append((s, e, el, info))
+    for s, e, el, info in sorted(spans, key=lambda x: -x[0]):
+        log.append({'item': key, 'rule': 'R6b-elide-fragment', 'fragment': el['kind'] + '#%d' % el['index'], 'detail': info, 'to': el['to'], 'dropped_bytes': e - s})
+        text = text[:s] + el['to'] + text[e:]
+    return text
+
+
 def extract_fragment(text, frag, key):
     """R6: lift a fragment of a function to a named function.
     frag = dict(kind='match'|'closure'|'block', index=k, sig='fn name(params) -> T', scrutinee=None|'param')
@@ -451,6 +514,8 @@ def build(unit, repo, outdir):
         if item.get('fragment'):
             text, frag_info = extract_fragment(text, item['fragment'], key)
             log.append({'item': key, 'rule': 'R6-lift-fragment', 'fragment': item['fragment']['kind'] + '#%d' % item['fragment']['index'], 'detail': frag_info})
+        if item.get('elide'):
+            text = elide_fragments(text, item['elide'], key, log)
         pre_rewrite = text
         text = apply_rewrites(text, item.get('rewrites') or [], log, key)
         if text.lstrip().startswith('fn ') or item.get('fragment'):
